@@ -186,3 +186,34 @@ pub fn props(args: &[String]) {
     }
     println!("{}", json!({"tried": tried, "found": found}));
 }
+
+/// search aid for C10 (only after an obligation broke): collision frequency for l = 1 against the
+/// Jaccard index of the element multisets (the l = 1 case of the order-min-hash similarity)
+pub fn mc(args: &[String]) {
+    let seed = arg_u64(args, "--seed", 1);
+    let trials = arg_u64(args, "--trials", 1500) as usize;
+    std::panic::set_hook(Box::new(|_| {}));
+    let mut rng = SplitMix64::new(seed ^ 0x3C10);
+    let mut found: Vec<Value> = Vec::new();
+    for (name, a_only, both, b_only) in [("overlap", 10usize, 10usize, 10usize), ("nested", 0, 5, 20), ("tiny", 1, 1, 1)] {
+        let j = both as f64 / (a_only + both + b_only) as f64;
+        for m in [4usize, 32] {
+            let mut sum = 0.0f64;
+            for _ in 0..trials {
+                let ids: Vec<u64> = (0..(a_only + both + b_only)).map(|_| rng.next_u64() >> 4).collect();
+                let a: Vec<u64> = ids[..a_only + both].to_vec();
+                let b: Vec<u64> = ids[a_only..].to_vec();
+                let mut s = ProbOrdMinHash2::<FnvHasher>::new(m as u32, 1);
+                let sa = s.hash_set(&a);
+                let sb = s.hash_set(&b);
+                sum += sa.iter().zip(sb.iter()).filter(|(x, y)| x == y).count() as f64 / m as f64;
+            }
+            let mean = sum / trials as f64;
+            let z = (mean - j) / (j * (1. - j) / (m as f64 * trials as f64)).sqrt().max(1e-12);
+            if z.abs() > 6. {
+                found.push(json!({"family": name, "m": m, "l": 1, "j": j, "mean": mean, "z": z, "trials": trials, "seed": seed}));
+            }
+        }
+    }
+    println!("{}", json!({"found": found}));
+}
